@@ -34,7 +34,7 @@ func encodeBits(data []byte, alphabet string, bits, quantum int, pad bool) strin
 }
 
 func B32Encode(data []byte, pad bool) string { return encodeBits(data, B32Alphabet, 5, 8, pad) }
-func B64Encode(data []byte) string          { return encodeBits(data, B64Alphabet, 6, 4, true) }
+func B64Encode(data []byte) string           { return encodeBits(data, B64Alphabet, 6, 4, true) }
 
 var ErrBadEncoding = errors.New("refmodel: malformed encoding")
 
@@ -124,5 +124,7 @@ func decodeBits(s string, alphabet string, bits, quantum int, padded bool) ([]by
 	return out, verdict
 }
 
-func B32Decode(s string, padded bool) ([]byte, Verdict) { return decodeBits(s, B32Alphabet, 5, 8, padded) }
-func B64Decode(s string) ([]byte, Verdict)              { return decodeBits(s, B64Alphabet, 6, 4, true) }
+func B32Decode(s string, padded bool) ([]byte, Verdict) {
+	return decodeBits(s, B32Alphabet, 5, 8, padded)
+}
+func B64Decode(s string) ([]byte, Verdict) { return decodeBits(s, B64Alphabet, 6, 4, true) }
